@@ -150,13 +150,22 @@ class Report:
             'by_rule': self.by_rule,
             'functions_analysed': len(self.analysed_fns),
             'paths_enumerated': self.paths,
+            'path_bound': 'loops unrolled %d times per frame (each block visited at most %d times); inlining depth 9; '
+                          'paths cut by the bound are not enumerated' % (
+                              (int(os.environ.get('FI_MAX_VISITS', 4 if self.tier == 'thorough' else 3)) - 1,
+                               int(os.environ.get('FI_MAX_VISITS', 4 if self.tier == 'thorough' else 3)))),
             'feature_configs': self.configs,
             'samples': self.samples if self.samples else [{'note': 'no sample recorded'}],
             'trusted_base': self.trusted,
             'checker_cmd': './check %s --tier %s' % (self.prop, self.tier),
             'observations': self.observations,
             'known_findings_hit': [v['key'] for v in known_hit],
-            'exhaustive': True,
+            # complete enumeration only where the space is finite as such (impls, call sites, probes); control-flow
+            # paths are enumerated up to the stated bound
+            'exhaustive': self.paths == 0,
+            'exhaustive_note': 'every impl / call site / probe of the stated kind' if self.paths == 0 else
+                               'every rule instance on every control-flow path within path_bound; paths through '
+                               'more loop iterations are not enumerated',
         }
         cov.update(self.extra)
         ev = {
